@@ -1,5 +1,5 @@
 ENGINES = [
-    {"name": "E1-crosshair", "path": "vlib/chx.py", "serves_properties": ["C13"],
+    {"name": "E1-crosshair", "path": "vlib/chx.py", "serves_properties": ["C13", "C18", "C20"],
      "kind_free_text": "CrossHair (z3) symbolic execution of harness conditions that call toasty's real functions; inductive cuts by stubbing recursive globals / the reducer; counterexamples replayed under plain CPython"},
 ]
 NOTES = ("Solver-based checking of the real code. Exit 0 = all explored obligations held; inconclusive obligations are printed as INCONCLUSIVE and listed in evidence, never counted as held. "
@@ -9,4 +9,17 @@ CHECKS["C13"] = dict(
     technique="CrossHair/z3 symbolic execution of the real position algebra, generators, reducer and counters (one-step inductive obligations + bounded end-to-end with symbolic filter masks)",
     text="Bounded symbolic execution: each obligation is confirmed over all paths by CrossHair/z3 for symbolic positions (unbounded ints for the algebra), symbolic filter verdicts and child results; one-step obligations cover any depth by induction, the end-to-end obligation cross-checks the composition to depth 1 (quick) / 2 (thorough).",
     note="CrossHair's int/list/tuple models; progress_bar/print stubbed; the induction gluing the one-step obligations is on paper (Appendix A-1..3); hashing symbolic Pos realises positions (enumerated within stated ranges).",
+)
+
+CHECKS["C18"] = dict(
+    engine="E1-crosshair", ref="DESIGN.md §3.6",
+    technique="CrossHair/z3 symbolic execution of the real publish()/LocalPipelineIo/refresh_impl over an in-memory file system with a symbolic crash point and symbolic directory order",
+    text="Bounded symbolic execution: for every listing position of index.wtml (or none), every crash point (before or inside any single transfer, or none) and every re-run listing order, with <= 4 files (quick) / <= 7 (thorough) and <= 2 images, the store never holds index.wtml without all other files complete, the rename happens only after all transfers, and a re-run completes.",
+    note="os/open/shutil replaced by an in-memory file system (model of the environment); only the local store back end is executed; crash = exception at a symbolic transfer, partial file modelled for the file in flight only.",
+)
+CHECKS["C20"] = dict(
+    engine="E1-crosshair", ref="DESIGN.md §3.7",
+    technique="CrossHair/z3 symbolic execution of the real SimpleFitsCollection / collection.load / CLI option parsing against a fake HDU list with astropy's indexing contract",
+    text="Bounded symbolic execution: for <= 3 files (4 thorough) with 3 HDUs each, symbolic scalar / per-file list / absent HDU index and WCS key, item k is read from HDU scalar | list[k] | first image HDU with the matching key; descriptions() and images() agree; CLI strings parse to scalar or list.",
+    note="astropy.io.fits.open / astropy.wcs.WCS replaced by fakes with astropy's indexing contract; astropy's own parsing is outside the claim.",
 )
